@@ -46,9 +46,14 @@ Drift(e) ==
   ELSE IF e.u.fragment # m.u.fragment THEN "model:fragment"
   ELSE "-"
 
+\* input class "the authority ends with a line feed, and without that one character the observation
+\* satisfies every clause" (used only to attribute a failing verdict to a recorded finding)
+DropAt(t, i) == SubSeq(t, 1, i - 1) \o SubSeq(t, i + 1, Len(t))
+AuthLF(R) == R.kind # "none" /\ R.authority # <<>> /\ R.authority[Len(R.authority)] = 10
+OnlyAuthLF(e, R) == AuthLF(R) /\ Verdict([e EXCEPT !.s = DropAt(e.s, R.a2 - (Len(R.t) - Len(e.s)))]) = "ok"
 ParseFacts(e) == LET R == Ref(e.s) IN
   [kind |-> R.kind, http |-> IsHttp(R), emptyhost |-> R.host = <<>>, hostkind |-> HostKind(R.host),
-   model |-> ModelParse(e.s).k]
+   model |-> ModelParse(e.s).k, authlf |-> AuthLF(R), onlyauthlf |-> e.k = "url" /\ OnlyAuthLF(e, R)]
 
 \* ---------------------------------------------------------------- C15
 PxMode(o) == IF o.px = NONE THEN "none" ELSE "proxy"
